@@ -268,11 +268,10 @@ class CRDTStore(Entity):
         )
         self._gossip_sent += 1
 
-        # Schedule next gossip tick
-        from happysimulator.core.temporal import Instant
-
+        # Schedule next gossip tick (integer clock arithmetic: a float round trip of
+        # `now` can truncate the next tick back onto, or before, the current instant)
         next_tick = Event(
-            time=Instant.from_seconds(self.now.to_seconds() + self._gossip_interval),
+            time=self.now + self._gossip_interval,
             event_type="GossipTick",
             target=self,
             daemon=True,
